@@ -481,7 +481,10 @@ class Engine:
             return True
         if r == 'sat':
             rec['verdict'] = 'sat'
-            rec['model'] = self._input_model(m, z3.Not(zs))[0]
+            if self._count_failure(rec['key']) <= 4:
+                rec['model'] = self._input_model(m, z3.Not(zs))[0]
+            else:
+                rec['model'] = self._input_model(m, None, nice=False)[0]
             rec['choices'] = dict(self.choices)
             self.obls.append(rec)
             return False
@@ -519,7 +522,18 @@ class Engine:
         return 'unknown', None
 
     # -------------------------------------------------------------- witness
-    def _input_model(self, model, extra=None):
+    def _count_failure(self, key):
+        """number of failures of `key` recorded so far in this job (all paths)"""
+        p = self.rec_path + '.fail'
+        try:
+            with open(p, 'a') as f:
+                f.write(key + "\n")
+            with open(p) as f:
+                return sum(1 for l in f if l.rstrip("\n") == key)
+        except OSError:
+            return 0
+
+    def _input_model(self, model, extra=None, nice=True):
         """input name -> encoded value under `model`; tries to make decimal-
         flavoured inputs decimal-representable."""
         out = {}
@@ -532,7 +546,7 @@ class Engine:
             if flav == 'dec' and not _is_decimal(v):
                 bad = True
             out[name] = enc_num(v)
-        if bad:
+        if bad and nice:
             # ask for a nicer model: all rational inputs on a decimal grid
             for digits in (3, 9, 30):
                 cons = [z3.IsInt(var * (10 ** digits))
@@ -547,6 +561,8 @@ class Engine:
                         out[name] = enc_num(v) if v is not None else None
                     out['_nice'] = True
                     return out, m2
+            out['_unrepresentable'] = True
+        elif bad:
             out['_unrepresentable'] = True
         return out, model
 
